@@ -31,21 +31,20 @@ theorem known_size_loop_progress (len c n : Nat) (hn : 1 ≤ n) (hw : c + n < W)
   simp [Atom.next, wrapAdd, Nat.mod_eq_of_lt hw]
 
 /-- **Wrapper**: a spinning thread only reads; the thread the yielded counter points at is never blocked:
-if a ticket equals `yielded`, its holder's next step enters (or continues) the critical section without
-waiting for anyone. -/
-theorem iter_ticket_holder_enters (s : IW.Script) (t : Nat) (c : IW.Cfg) (r : IW.Req) (b : Nat)
-    (h : (c.th t).pc = .wait r b) (hb : b = c.Y) : ((IW.step s t c).th t).pc.inCS = true := by
+if a ticket equals `yielded`, its holder's next step takes its turn (`ent`), and the step after that either enters
+the critical section or returns (if `completed` is set) -- without waiting for anyone. -/
+theorem iter_ticket_holder_takes_turn (s : IW.Script) (t : Nat) (c : IW.Cfg) (r : IW.Req) (b : Nat)
+    (h : (c.th t).pc = .wait r b) (hb : b = c.Y) : ((IW.step s t c).th t).pc = .ent r b := by
   unfold IW.step
-  simp only [h, hb, ↓reduceIte]
-  split <;> simp [IW.setTh, IW.Pc.inCS]
+  simp [h, hb, IW.setTh]
 
 /-- **Wrapper, deadlock freedom, all schedules**: in every reachable configuration (fused scripts, panics
 included; skips anywhere), if some thread still has work then some working thread is not waiting: the holder of
 the ticket `yielded` points at, or — once `completed` is set — everybody. -/
-theorem iter_deadlock_free (s : IW.Script) (hf : IW.Fused s) (ps : Nat → List IW.Req) (hok : ∀ t, ∀ r ∈ ps t, IW.ReqOk r)
+theorem iter_deadlock_free (s : IW.Script) (ps : Nat → List IW.Req) (hok : ∀ t, ∀ r ∈ ps t, IW.ReqOk r)
     (σ : List Nat) (hW : (IW.run s σ (IW.init ps)).R < W) (t0 : Nat) (hb : IW.Busy (IW.run s σ (IW.init ps)) t0) :
     ∃ t, IW.Busy (IW.run s σ (IW.init ps)) t ∧ ¬ IW.Spinning (IW.run s σ (IW.init ps)) t := by
-  obtain ⟨hi, hc, hd⟩ := IW.cover_run hf σ (IW.inv_init s ps hok) (IW.cover_init ps) (by intro t b n h; simp [IW.init] at h) hW
+  obtain ⟨hi, hc, hd⟩ := IW.cover_run σ (IW.inv_init s ps hok) (IW.cover_init ps) (by intro t b n h; simp [IW.init] at h) hW
   exact IW.deadlock_free hi hc hd t0 hb
 
 /-- a waiting thread's spin iteration changes nothing but its own place in the two-load loop: it cannot delay
